@@ -5,6 +5,7 @@ from harness import dist as D
 
 ID = "C02"
 PROPS = "props/C02.v"
+NEEDS = ["dist_close_to_zero_abs_tol", "dist_manager_exponent"]
 
 
 def finding_of(case, obs, clause, gi):
